@@ -596,6 +596,11 @@ impl<'a> Gen<'a> {
             if name == "sleep" {
                 return "\\sleep 0 ".into();
             }
+            if name == "newIntArray" {
+                // the size is not bounded by the implementation: `\newIntArray\J 2147483647`
+                // allocates 8 GiB (finding C09-k); keep the harness within small sizes
+                return "\\newIntArray\\J 3 ".into();
+            }
             format!("\\{name}")
         }
     }
@@ -623,7 +628,7 @@ impl<'a> Gen<'a> {
             9 => format!("\\mathcode{}", self.int_lit()),
             10 => (*self.rng.pick(&["\\year", "\\month", "\\day", "\\time"])).to_string(),
             11 => (*self.rng.pick(&["\\endlinechar", "\\tracingmacros", "\\globaldefs", "\\dumpFormat", "\\dumpValidate"])).to_string(),
-            12 => (*self.rng.pick(&["\\X", "\\C", "\\M", "\\I", "\\J 0", "\\J 5", "\\J -1", "\\T"])).to_string(),
+            12 => (*self.rng.pick(&["\\X", "\\C", "\\M", "\\I", "\\J 0", "\\J 5", "\\J -1", "\\T", "\\K", "\\K 0"])).to_string(),
             13 => self.any_cs(),
             _ => format!("\\count{}", self.rng.below(3)),
         }
@@ -757,14 +762,25 @@ impl<'a> Gen<'a> {
             25 | 26 => format!("\\the{}", if self.rng.chance(3, 4) { self.variable() } else { self.text() }),
             27 => format!("\\expandafter{}{}", self.any_cs(), self.any_cs()),
             28 => format!("\\noexpand{}", self.any_cs()),
-            29 => "\\relax ".into(),
+            29 => match self.rng.below(3) {
+                0 => "\\relax ".into(),
+                // copies of commands of every kind
+                _ => format!(
+                    "\\let\\K={} ",
+                    *self.rng.pick(&["\\J", "\\I", "\\C", "\\M", "\\T", "\\X", "\\count", "\\the", "\\a", "\\year", "\\catcode", "\\par", "\\fi", "\\ifcase", "\\or", "\\else", "\\read", "\\global"])
+                ),
+            },
             30 => format!("\\input {} ", *self.rng.pick(FILE_NAMES)),
             31 => format!("\\openin{}={} ", self.reg_idx_small(), *self.rng.pick(FILE_NAMES)),
             32 | 33 => format!("{}\\read{} to{}", self.prefix(), self.reg_idx_small(), self.user_cs()),
             34 => format!("\\closein{} ", self.reg_idx_small()),
             35 => format!("{}={} ", self.variable(), self.value_for_anything()),
             36 => format!("\\newInt{} ", *self.rng.pick(&["\\I", "\\X", "a"])),
-            37 => format!("\\newIntArray{}{} ", *self.rng.pick(&["\\J", "\\X"]), self.int_lit()),
+            37 => format!(
+                "\\newIntArray{}{} ",
+                *self.rng.pick(&["\\J", "\\X"]),
+                *self.rng.pick(&["0", "1", "7", "1000", "65536", "-1", "-2147483647", "x", "\\dimen0", "`a", "\"FF"])
+            ),
             38 => (*self.rng.pick(&["\\errorstopmode ", "\\scrollmode ", "\\nonstopmode ", "\\batchmode ", "\\jobname ", "\\endinput ", "\\par ", "\\newline ", "\\sleep 0 ", "\\sleep -1 ", "\\sleep x"])).to_string(),
             39 => format!("{{{}{}", self.body(2), if self.rng.chance(1, 10) { "" } else { "}" }),
             40 => self.call(),
@@ -891,7 +907,8 @@ impl C09 {
                     // a line content with a line break of its own (\r, U+2028 are not) cannot occur
                     list.push((p.clone(), underline));
                 }
-                for e in excerpts.iter().take(5) {
+                // (a failed-precondition error prints its primary trace only)
+                for e in excerpts.iter().take(if kind == "precondition" { 0 } else { 5 }) {
                     if Some(e) != primary.as_ref().map(|(p, _)| p) {
                         list.push((e.clone(), None));
                     }
@@ -1134,10 +1151,18 @@ impl Property for C09 {
             "\\input x:a ",
             "\\input a./b ",
             "\\openin 1=x>a ",
+            "\\newIntArray\\J 3 \\let\\K=\\J \\K 0=1 ",
         ];
         for p in progs {
             for m in MODES {
                 v.push(format!("run {m} {}", enc(p)));
+            }
+        }
+        // the error cases the authors list themselves
+        for c in sl::ErrorCase::all_error_cases() {
+            for m in MODES {
+                v.push(format!("run {m} {}", enc(c.source_code)));
+                v.push(format!("run {m} {}", enc(&format!("\u{e9}\u{4e16} {} \u{e9}", c.source_code))));
             }
         }
         v
@@ -1214,12 +1239,27 @@ impl Property for C09 {
             }
         }
         // --- programs
-        let n_prog = if ctx.thorough { 30_000 } else { 3_000 };
+        let n_prog = if ctx.thorough { 60_000 } else { 9_000 };
         let mut r = rng.fork();
         for i in 0..n_prog {
             let mut g = Gen { rng: &mut r, vocab: &vocab, macros: vec![] };
             let len = 1 + g.rng.below(9) as usize;
-            let parts = if i % 5 == 4 { g.soup(len + 2) } else { g.program(len) };
+            let mut parts = if i % 5 == 4 { g.soup(len + 2) } else { g.program(len) };
+            if g.rng.chance(3, 5) {
+                // a prelude that defines what the statements refer to, so that fewer runs stop at
+                // the first undefined control sequence
+                const PRE: &[&str] = &[
+                    "\\def\\a{x}", "\\def\\b#1{#1}", "\\def\\c#1#2{#2#1}", "\\def\\x#1.{[#1]}", "\\def\\y{\\b}", "\\newInt\\I ",
+                    "\\newIntArray\\J 3 ", "\\countdef\\X=5 ", "\\chardef\\C=65 ", "\\mathchardef\\M=7 ", "\\toksdef\\T=2 ", "\\let\\K=\\count ",
+                    "\\tracingmacros=2 ", "\\globaldefs=1 ", "\\globaldefs=-1 ", "\\count1=5 ", "\\dimen1=2.5pt ", "\\skip1=1pt plus 2fil minus 3fill ",
+                    "\\toks1={a\\b{c}#}", "\\catcode`\\~=13 \\def~{t}", "\\openin 1=a ", "\\openin 2=b ", "\\openin 3=utf ", "\\endlinechar=-1 ", "\\catcode`\\@=11 ",
+                    "\\def\\+{p}", "\\def\\A#1#2#3#4#5#6#7#8#9{#9#1}", "\\long\\def\\\u{e9}t\u{e9}{\u{e9}}",
+                ];
+                let k = 2 + g.rng.below(9) as usize;
+                let pre: String = (0..k).map(|_| *g.rng.pick(PRE)).collect();
+                parts.insert(0, pre);
+                g.macros.extend([("\\a".to_string(), 0), ("\\b".to_string(), 1), ("\\c".to_string(), 2), ("\\A".to_string(), 9)]);
+            }
             let all_modes = i % 4 == 0;
             let prefixes = i % 10 == 0;
             let mode0 = *g.rng.pick(MODES);
@@ -1254,9 +1294,7 @@ impl Property for C09 {
                 out.push(format!("run {m} {}", enc(&p)));
             }
         }
-        if ctx.thorough {
-            out.push("deep 200000".into());
-        }
+        out.push("deep 200000".into());
         out
     }
 
@@ -1306,6 +1344,14 @@ impl Property for C09 {
                 }
                 if mode != "e" {
                     out.push(format!("run e {prog}"));
+                }
+            }
+            "loc" => {
+                let d: Vec<char> = dec(rest).chars().collect();
+                for i in 0..d.len() {
+                    let mut p = d.clone();
+                    p.remove(i);
+                    out.push(format!("loc {}", enc(&p.iter().collect::<String>())));
                 }
             }
             "proto" => {
@@ -1408,6 +1454,7 @@ impl C09 {
 
 extern "C" {
     fn mallopt(param: i32, value: i32) -> i32;
+    fn dup2(oldfd: i32, newfd: i32) -> i32;
 }
 
 fn main() {
@@ -1425,6 +1472,16 @@ fn main() {
         let a: Vec<String> = std::env::args().collect();
         a.iter().position(|x| x == "--driver").and_then(|i| a.get(i + 1).cloned()).unwrap_or_default()
     };
+    // `\tracingmacros` prints with `println!` (not through `HasLogging`): when the report goes
+    // to a file, send the interpreter's own standard output to /dev/null.
+    if std::env::args().any(|a| a == "--out") {
+        if let Ok(f) = std::fs::OpenOptions::new().write(true).open("/dev/null") {
+            use std::os::fd::AsRawFd;
+            unsafe {
+                dup2(f.as_raw_fd(), 1);
+            }
+        }
+    }
     let deep_child = std::env::args().any(|a| a.starts_with("deepchild"));
     if deep_child {
         // default main-thread stack on purpose
